@@ -162,7 +162,9 @@ macro_rules! parked_call {
             return Err(ParkStore::injected($op, &path, "failed before landing"));
         }
         let r = $call.await;
-        if $op.is_mutation() && !$self.hub.park($op, &path, Phase::After).await {
+        // (reads only park here when the hub parks reads: then "the read has returned its answer
+        // but the caller has not acted on it yet" is a decision point of its own)
+        if !$self.hub.park($op, &path, Phase::After).await {
             return Err(ParkStore::injected($op, &path, "landed, then reported failure"));
         }
         r
